@@ -34,7 +34,7 @@ def gen(tier, rng):
         senders = rng.choice([1, 1, 1, 2])
         sends = rng.choice([3, 4, 6]) if senders == 1 else rng.choice([2, 3])
         mn, mx = rng.choice([0, 0, 1, 2, 3]), rng.choice([0, 1, 1, 2, 3])
-        faults = sg.random_faults(rng, 10, rng.choice([0.3, 0.6, 0.9]))
+        faults = sg.random_faults(rng, 10, rng.choice([0.3, 0.6, 0.9]), kind)
         timed = rng.random() < 0.2
         extra = ["m"] * rng.choice([0, 1, 2, 4])
         if timed:
@@ -47,7 +47,8 @@ def gen(tier, rng):
 
 
 def timing_dependent(case):
-    return "W" in case.split("\t")[8].split(",")
+    # real threads against a real peer (and wall-clock waits in the `W` runs): a disagreement is re-run alone before it counts
+    return True
 
 
 def nontrivial(case):
